@@ -159,19 +159,19 @@ func allValues() (vals []string) {
 }
 
 var (
-	redKeysQuick    = []string{"", "a", "a b", "\xff"}
+	redKeysQuick    = []string{"", "a b", "\xff"}
 	redKeysThorough = []string{"", "a", "a b", "\xff", "\"", "\n", "a=b", "<&>"}
 )
 
 func redValuesQuick() []string {
 	return []string{
 		"s:", "s:a", "s:" + enum.Hex("\xff"), "s:" + enum.Hex("\""), "i:-1", "b:1", "y:" + enum.Hex("\xff\n"),
-		"e:" + enum.Hex("\xff \""), "t:1", "d:1500000000", "n", "g:0", "g:2",
+		"e:" + enum.Hex("\xff \""), "t:1", "n", "g:0", "g:2",
 	}
 }
 
 func redValuesThorough() []string {
-	return append(redValuesQuick(), "s:"+enum.Hex("\n"), "s:"+enum.Hex("a b"), "s:"+enum.Hex("<&>"), "s:"+enum.Hex("\xc3"),
+	return append(redValuesQuick(), "d:1500000000", "s:"+enum.Hex("\n"), "s:"+enum.Hex("a b"), "s:"+enum.Hex("<&>"), "s:"+enum.Hex("\xc3"),
 		"g:3", "g:4", "f:1.5")
 }
 
